@@ -445,6 +445,11 @@ pub fn c17(em: &mut Emit, thorough: bool, seed: u64) {
                                 &pred(ok, || why.clone()),
                                 &format!("{}:l{}:{}", m, level.min(1), out),
                             );
+                            // a body announced as gzip is also judged by decoders that share
+                            // nothing with the encoder (the model's, and zlib; see C09)
+                            if ce_gzip && has_w {
+                                em.note("gz", &format!("1 {} {} 0", hex(&body), hex(payload)));
+                            }
                         }
                     }
                 }
